@@ -128,6 +128,19 @@ def sweep_fields(r):
     return out
 
 
+def scalar_state(asm):
+    """the set-up decisions taken for one assembly: every scalar attribute (switches, step requirements, constants) of the assembly
+    and of its regions.  In an adiabatic core they can only depend on the assembly's own input."""
+    out = {}
+    for tag, obj in [("asm", asm)] + [("region%d" % i, reg) for i, reg in enumerate(asm.region)]:
+        for k, v in vars(obj).items():
+            if k in ("id", "_id", "name") or isinstance(v, bool) or isinstance(v, (int, float, str, np.floating, np.integer)):
+                if k in ("id", "_id", "loc"):
+                    continue
+                out["%s.%s" % (tag, k)] = v if isinstance(v, (bool, str)) else float(v)
+    return out
+
+
 def oracle(ctx, rng, n):
     for ci in range(n):
         coolant = rng.choice(['sodium', 'sodium', 'nak'])
@@ -141,6 +154,21 @@ def oracle(ctx, rng, n):
         base = gi.random_case(rng, positions=pos, n_types=1 if forced else rng.choice([1, 1, 2]), gap_model='none', const_props=False,
                               length=round(rng.uniform(0.1, 0.25), 3), flow_range=(0.2, 5.0), **forced)
         base['core']['coolant_material'] = coolant
+        if ci % 3 == 1:
+            # low-flow convection approximation: a switch decided per assembly at set-up; with a cutoff between the step
+            # requirements of slow and fast assemblies some get it and some do not
+            base['setup']['conv_approx'] = True
+            base['setup']['conv_approx_dz_cutoff'] = rng.choice([0.002, 0.005, 0.02])
+            flows = sorted(10 ** rng.uniform(-1.7, 0.8) for _ in base['assignment'])
+            if len(flows) > 1:
+                flows[0], flows[-1] = min(flows[0], 0.03), max(flows[-1], 4.0)
+            rng.shuffle(flows)
+            for a_, f_ in zip(base['assignment'], flows):
+                for k_ in ('outlet_temp', 'delta_temp'):
+                    a_.pop(k_, None)
+                a_['flowrate'] = round(f_, 5)
+        else:
+            gi.random_setup_options(rng, base, p=0.2)
         if ci % 3 != 0 and rng.random() < 0.6:
             # correlated parameters re-evaluated only when the coolant properties moved by more than a tolerance: the reference
             # values of that test are per-assembly state, too
@@ -166,6 +194,30 @@ def oracle(ctx, rng, n):
             b = bad[0]
             ctx.violation("c06-shared-mutable:%s" % b[2][1], "assemblies %d and %d share the mutable object %s (%s) which the sweep "
                           "modifies" % (b[0], b[1], b[2][0], b[2][1]), case=base, shared=[(x[0], x[1], x[2][0]) for x in bad[:10]])
+        state_all = {a.id: scalar_state(a) for a in r_all.assemblies}      # r_all has not been stepped yet
+        # (1b) set-up decisions of EVERY assembly: alone vs in company
+        for asg in base['assignment']:
+            tid_ = gi.position_index(asg['ring'], asg['pos'])
+            alone_ = copy.deepcopy(base)
+            alone_['assignment'] = [copy.deepcopy(asg)]
+            alone_['power']['rows'] = [row for row in base['power']['rows'] if int(row[0]) == tid_]
+            try:
+                _, r_solo = gi.build_reactor(alone_, d)
+            except SystemExit:
+                ctx.count("alone_rejected")
+                continue
+            a_id = [a.id for a in r_all.assemblies if gi.position_index(a.loc[0] + 1, a.loc[1] + 1) == tid_][0]
+            st_one = scalar_state(r_solo.assemblies[0])
+            diff = sorted(k for k in st_one if k in state_all[a_id] and st_one[k] != state_all[a_id][k]
+                          and not (st_one[k] != st_one[k] and state_all[a_id][k] != state_all[a_id][k]))
+            ctx.count("setup_state_pairs")
+            if diff:
+                ctx.violation("c06-setup-depends-on-company:%s" % diff[0].split('.', 1)[1],
+                              "adiabatic core: the set-up of the assembly at position %d depends on the other assemblies: %s"
+                              % (tid_, ", ".join("%s = %r alone, %r in the %d-assembly core" % (k, st_one[k], state_all[a_id][k],
+                                                                                              len(pos)) for k in diff[:4])),
+                              case=base, target=tid_, attributes=diff[:20])
+                break
         try:
             full = sweep_fields(r_all)
         except SystemExit:
